@@ -1,7 +1,7 @@
 #!/bin/bash
 # tools/all_checks_on.sh <twin id>...: run EVERY claimed check on the given neutral refactorings (twins/<id>/patch.diff), scratch copy each.
 cd /verif
-ALL=${CHECKS:-"C01 C03 C05 C06 C07 C08 C09 C10 C11 C12 C13 C14 C15 C16 C17 C18 C19 C20"}
+ALL=${CHECKS:-"C01 C02 C03 C04 C05 C06 C07 C08 C09 C10 C11 C12 C13 C14 C15 C16 C17 C18 C19 C20"}
 for t in "$@"; do
   T=$(mktemp -d /tmp/twinall-XXXXXX); mkdir -p $T/src && cp -r /repo/src/werkzeug $T/src/ && rm -rf $T/src/werkzeug/__pycache__
   if ! (cd $T && patch -s -p1 < /verif/twins/$t/patch.diff >/dev/null 2>&1); then echo "$t: patch does not apply"; rm -rf $T; continue; fi
